@@ -64,6 +64,33 @@ CHECKS = {
         "(kind, name, pointer, transition state); the closing notification and the single timing record are issued from scope-guard destructors whose guards are constructed before the first statement that can abort; "
         "scope_exit runs iff armed, moves disarm the source, copies are deleted. The nesting tree is balanced because each crossing brackets itself.",
    note="trusted: C++ unwinding semantics for exceptions; clang front end; engine", ref="3/C19"),
+ "C04": dict(level="other", technique="null short-circuit domination, who-may-call table, template-argument/callee agreement and example-address provenance over the path-sensitive event model",
+   text="Decides the structural part for every instantiation: the four translation entry points consult the backend only for non-zero inputs and return 0/null otherwise; the backend translations are called from nowhere else; "
+        "every pointer instantiation of convert_type_non_class (scalars and arrays, all Direction x Context values) calls the translation its template arguments name, on `from`, into `to`, visiting every array index once; every "
+        "example address is the address of the tainted_volatile cell/object involved; nullptr stores 0; find_sandbox_from_example returns the element whose memory contains the example; bundled backends translate by identity. "
+        "Round-trip arithmetic of third-party backends is their contract.",
+   note="trusted: backend contract (translation inverse on in-sandbox addresses); clang front end; engine", ref="3/C04"),
+ "C07": dict(level="other", technique="record-layout facts against an independent ABI model + footprint rule on every typed access whose address derives from a sandbox pointer",
+   text="Decides: tainted_volatile<T> storage is volatile and has exactly the guest size/alignment for every instantiated T; in every public entry point (inlined) no typed load/store dereferences a raw sandbox pointer with an application "
+        "type whose size differs under the sandbox ABI (all accesses go through guest-typed storage); get_raw_value/operator= touch only their own storage. Decided under the foreign-ABI model where widths differ.",
+   note="trusted: the compiler emits sizeof(type) bytes for a typed volatile access; ABI model in sa/abi.py", ref="3/C07"),
+ "C08": dict(level="other", technique="record-layout facts against an independent ABI calculator + field-routing analysis of the six generated converters",
+   text="For every registered struct and backend: guest struct and tainted_volatile<S> have the size, alignment and field offsets the checker's own calculator derives from S's field list; tainted<S> has S's host layout; in each "
+        "generated converter every leaf field (nested structs expanded, arrays per index) is written exactly once from the same-named field of the single source object on every path. Field values are C04/C06.",
+   note="struct family in this revision: the driver's registered structs (all scalar kinds, pointers, function pointer, char/long/pointer arrays, nested struct); natural alignment", ref="3/C08"),
+ "C09": dict(level="other", technique="snapshot/single-fetch shape analysis: classification of the verifier's argument and counting of sandbox reads per path",
+   text="For every copy_and_verify variant and element type: the verifier is called once with a by-value scalar or a local application-memory object; no sandbox read follows; scalar variants fetch the cell once; "
+        "range/string variants use one length value for range check, allocation, loop bound, terminator and string constructor with at most one strlen; the char buffer is force-terminated. "
+        "This is the structural necessary condition for the absence of a check/use window; schedules are not explored.",
+   note="trusted: clang front end; engine; verifier bodies are the application's", ref="3/C09"),
+ "C17": dict(level="proof", technique="exact interval-set evaluation of the bounds guard per (array type, index type, wrapper) instantiation + element designation analysis",
+   text="For every instantiated combination (5 array shapes incl. 2-D and pointer arrays x 10 index types x plain/tainted index x tainted/tainted_volatile) the evaluator proves, for all index values, that the abort check accepts exactly "
+        "[0,N-1] (including the unsigned cast and values aliasing after truncation), and the engine shows the element designated is storage[index] of the wrapper's own host/guest std::array with the checked index. Every obligation is discharged.",
+   note="trusted base listed in evidence: clang constant evaluation/implicit conversions, interval evaluator (exact for this expression class; anything else is INCONCLUSIVE), std::array semantics", ref="3/C17"),
+ "C20": dict(level="other", technique="record-layout/triviality facts + bitwise-copy and cast-kind analysis of the opaque conversions and sandbox casts",
+   text="Decides: tainted_opaque<T> is a single T, layout-identical to tainted<T>, both trivially copyable/destructible; to_opaque/from_opaque return a bitwise copy typed as the sibling with identical T and sandbox type; "
+        "each sandbox_X_cast performs exactly one conversion of the kind X_cast permits (clang cast kind, not spelling) on the argument's value and wraps it as tainted<T_Lhs,T_Sbx>.",
+   note="bit patterns are not enumerated: a bitwise copy between layout-identical trivially-copyable types preserves every value", ref="3/C20"),
 }
 NA_REASON = "check under construction in this revision (see DESIGN.md section 3 for the planned static rules); not claimed yet"
 
